@@ -5,7 +5,7 @@
     every observation of "unlocked" is preceded by an unlock whose password was
     verified, with no lock / timer expiry / restart in between. *)
 From Coq Require Import List ZArith NArith Bool.
-From C33 Require Import C38.Model C38.Spec C38.Witness C38.Proofs C38.ProofsMain.
+From C33 Require Import C38.Model C38.Spec C38.Witness C38.Proofs C38.ProofsMain C38.ProofsTimed C38.ProofsTimed2.
 Import ListNotations.
 Open Scope Z_scope.
 
@@ -79,3 +79,24 @@ Theorem C38_guards_satisfiable :
   /\ result_of g 7 = Some (RStatus true true).
 Proof. exact guarded_example. Qed.
 Print Assumptions C38_guards_satisfiable.
+
+(** quiescent histories ([seq_run]: one request at a time, time passing in
+    between, the timer function running as soon as it is due, restarts): the
+    timed oracle [obs_ok_timed] holds, for every int64 timeout *)
+Theorem C38_timeout_respected_seq : forall ops,
+  obs_ok_timed (trace (seq_run ops init_g)) = true.
+Proof. exact timeout_respected_seq. Qed.
+Print Assumptions C38_timeout_respected_seq.
+
+Theorem C38_unlocked_inside_timeout_seq : forall ops,
+  let g := seq_run ops init_g in
+  locked (sh g) = false -> auth_timed (trace g) (now (sh g)) = true.
+Proof. exact unlocked_inside_timeout_seq. Qed.
+Print Assumptions C38_unlocked_inside_timeout_seq.
+
+Theorem C38_timed_example :
+  let g := seq_run ops_example init_g in
+  result_of g 2 = Some (RBool false) /\ result_of g 3 = Some (RBool true)
+  /\ result_of g 4 = Some (RErr eLocked) /\ result_of g 6 = Some (RBool false).
+Proof. exact timed_example. Qed.
+Print Assumptions C38_timed_example.
